@@ -121,6 +121,16 @@ def generate(rng, index, cfg):
             q["paths"] = [rel(d or ".")]
         else:
             q["paths"] = [rel(p) for p in rng.sample(cands, min(len(cands), rng.randint(2, 3)))]
+        if q["paths"] and rng.random() < 0.25:
+            # other spellings of the same pathspecs: './x', a trailing slash on directories
+            def respell(pth):
+                r2 = rng.random()
+                if r2 < 0.4 and not pth.startswith((".", "/")):
+                    return "./" + pth
+                if r2 < 0.7 and not pth.endswith(".ipynb") and not pth.endswith((".txt", ".py", ".md", ".json", ".bak")):
+                    return pth.rstrip("/") + "/"
+                return pth
+            q["paths"] = [respell(x) for x in q["paths"]]
         if q["api"] == "changed_notebooks" and q["paths"] and len(q["paths"]) == 1 and rng.random() < 0.3:
             q["paths"] = q["paths"][0]  # a bare string is accepted too
         c = rng.random()
